@@ -84,23 +84,34 @@ func init() {
 			}
 			for i := 0; i < nr; i++ {
 				mode := pick(r, "users", "constant", "staged", "ramp", "gaussian", "custom")
+				if i%6 == 3 {
+					mode = "filespan"
+				}
 				c := pick(r, 1, 2, 4, 16, 64)
 				var spec engine.Spec
-				if mode == "users" {
+				if mode == "filespan" {
+					c = pick(r, 1, 2, 4)
+					spec = engine.FileSpanSpec(c, uint64(c*(40+r.IntN(20))))
+				} else if mode == "users" {
 					spec = engine.Spec{Mode: "users", Concurrency: c, MaxDurationMS: 60000}
 				} else {
 					spec = engine.RateSpec(mode, pick(r, 1, c, 3*c), 5, c)
 				}
 				long := i%6 == 5
-				spec.MaxDurationMS = 150 + r.IntN(250)
-				if long {
+				if mode != "filespan" {
+					spec.MaxDurationMS = 150 + r.IntN(250)
+				}
+				if long && mode != "filespan" {
 					spec.MaxDurationMS = 1300 + r.IntN(900)
 				}
-				if r.IntN(3) == 0 && !long {
+				if r.IntN(3) == 0 && !long && mode != "filespan" {
 					spec.MaxIterations = uint64(50 + r.IntN(3000))
 				}
 				spec.IgnoreDropped = true
 				p := c01RunParams{Spec: spec, FailEvery: pick(r, 0, 1, 2, 3, 10), Body: pick(r, "instant", "spin", "sleep", "yield"), Snapshots: i%2 == 0, Reps: 1}
+				if mode == "filespan" {
+					p.Body, p.Snapshots, p.FailEvery = "span", false, pick(r, 2, 3)
+				}
 				if !long && i%4 == 1 {
 					p.Reps = 2 + r.IntN(2)
 				}
@@ -379,6 +390,18 @@ func c01Scenario(p *c01RunParams, passed, failed *atomic.Int64, salt uint64) f1t
 	return func(t *f1testing.T) f1testing.RunFn {
 		return func(t *f1testing.T) {
 			id := engine.IDOf(t)
+			if p.Body == "span" {
+				// mark first, then outlive the stage: the mark must survive the next stage's pool
+				if p.FailEvery > 0 && id%uint64(p.FailEvery) == 0 {
+					failed.Add(1)
+					t.Fail()
+					engine.SpanSleep(id)
+					return
+				}
+				engine.SpanSleep(id)
+				passed.Add(1)
+				return
+			}
 			bodyWork(p.Body, id*2654435761+salt)
 			if p.FailEvery > 0 && id%uint64(p.FailEvery) == 0 {
 				failed.Add(1)
